@@ -8,7 +8,7 @@ open OdlModel OdlModel.Functionals
     `deriv f=… w=… x=… d=…`                      → `ok v=<rat>` (= d.inner(grad f(x)))
     `lip f=… w=…`                                → `nan` | `inf` | `fin r=… roots=c:q;…` -/
 def handle (l : Line) : Option String := do
-  let (o, f, n) ← parseCase l
+  let (o, f, n) ← parseCase l false
   match l.op with
   | "val" => do
       let x ← vecArg l "x" n
